@@ -28,6 +28,7 @@ import PM.OpGuardNode
 import Props.C01
 import Props.C12
 import Props.C11
+import Props.Family
 namespace PM.C04
 open PM
 
@@ -4268,4 +4269,87 @@ theorem editHistory_undo_bmp' (S : Schema) (htr : compatTransB S = true) (htl : 
     (editOps_residual' S htr htl hdet hfill hwrap hlab hleaf hts hcl hst ops (Tr.init doc) rfl rfl ⟨hd, hn⟩ hb
       hall hres)
 
+/-! #### non-vacuity of `editHistory_undo_bmp'`: schema `doc: para*`, `para: text*`, document `doc(para("ab"))` -/
+
+private def nvNt (name : String) (dfa : Array DfaState) : NodeType :=
+  { name := name, isText := false, isInline := false, isLeaf := false, isAtom := false,
+    inlineContent := false, isolating := false, defining := false, code := false,
+    dfa := dfa, markSet := some [], attrs := [] }
+private def nvDoc : Node := .elem 0 [] [] [.elem 1 [] [] [.text [97, 98] []]]
+private def nvS : Schema :=
+  { nodes := #[
+      nvNt "doc" #[⟨true, [(1, 0)]⟩],
+      { nvNt "para" #[⟨true, [(2, 0)]⟩] with inlineContent := true },
+      { nvNt "text" #[⟨true, []⟩] with isText := true, isInline := true, isLeaf := true, isAtom := true }],
+    marks := #[], top := 0, textTy := 2 }
+
+private def nvTyped : Slice := ⟨[.text [99] []], 0, 0⟩
+
+/-- the schema guards and the per-operation hypotheses of `EditResidual'` hold on concrete arguments: a deletion and
+    typing "c" -/
+example : PM.C11.detB nvS = true ∧ nvS.fillersOKB = true ∧ nvS.wrapOKB = true ∧ nvS.labelsOKB = true ∧
+    PM.FromDom.leafOkB nvS = true ∧ textStableC nvS = true ∧ nvS.closableB = true ∧
+    PM.FromDom.textStableB nvS = true ∧ compatTransB nvS = true ∧
+    nvS.checkNode nvDoc = true ∧ fnorm nvDoc.kids = true ∧ bmpDoc nvDoc = true ∧ nvS.nodeAttrsOK nvDoc = true ∧
+    -- a deletion: the recorded step is a `ReplaceStep`, nothing further is asked
+    replaceStep nvS nvDoc 1 2 Slice.empty = .ok (some (.replace 1 2 Slice.empty false)) ∧
+    AroundFitsBack nvS (.replace 1 2 Slice.empty false) nvDoc ∧
+    -- typing "c": class, BMP text, and `RecordedReplaceOk` of the recorded step
+    nvTyped.inlineLeaves nvS = true ∧ nvTyped.closedValid nvS = true ∧ sliceBmp nvTyped = true ∧
+    replaceStep nvS nvDoc 1 1 nvTyped = .ok (some (.replace 1 1 nvTyped false)) ∧
+    RecordedReplaceOk nvS (.replace 1 1 nvTyped false) nvDoc := by
+  refine ⟨by decide, by decide, by decide, by decide, by decide, by decide, by decide, by decide, by decide,
+    by decide, by decide, by decide, by decide, rfl, trivial, by decide, by decide, by decide, rfl, by decide⟩
+
+private theorem nv_apply : nvS.apply (.replace 1 2 Slice.empty false) nvDoc = .ok (.elem 0 [] [] [.elem 1 [] [] [.text [98] []]]) := by
+  have hv : nvS.validContent 1 [Node.text [98] []] = true := by decide
+  have hv0 : nvS.validContent 0 [Node.elem 1 [] [] [Node.text [98] []]] = true := by decide
+  have hs : splitOk [97, 98] 1 = true := by decide
+  simp [Schema.apply, Schema.fromReplace, Schema.replace, nvDoc, replaceKids, inRange, Slice.empty,
+    depthAt, Slice.wf, spineL, spineR, outer, atLevel, twoWay, splitRight, flatTail,
+    Schema.close, fromArray, addNodes, addNode, hv, hv0, hs, Except.map, RSplit.rest]
+
+private theorem nv_replaceF : ∃ st', (PSt.mk (Tr.init nvDoc) []).replaceF nvS 1 2 Slice.empty = .ok st' ∧
+    st'.tr.doc = .elem 0 [] [] [.elem 1 [] [] [.text [98] []]] := by
+  unfold PSt.replaceF
+  rw [if_neg (by decide)]
+  split
+  · rename_i rf rt hf ht
+    cases hf
+    cases ht
+    split
+    · rename_i e hfit
+      cases hfit.symm.trans (rfl : _ = Except.ok true)
+    · simp only [PSt.step, Tr.step, show (Tr.init nvDoc).doc = nvDoc from rfl, nv_apply, liftP, Except.map]
+      exact ⟨_, rfl, rfl⟩
+    · rename_i hfit
+      cases hfit.symm.trans (rfl : _ = Except.ok true)
+  · rename_i hne
+    exact (hne _ _ rfl rfl).elim
+
+private theorem nv_run : ∃ tr1, (Tr.init nvDoc).runOps nvS [.replace 1 2 Slice.empty] = some tr1 ∧
+    tr1.doc = .elem 0 [] [] [.elem 1 [] [] [.text [98] []]] := by
+  obtain ⟨st', h, hd⟩ := nv_replaceF
+  refine ⟨st'.tr, ?_, hd⟩
+  simp only [Tr.runOps, Tr.runOp, Tr.planned, h]
+/-- **non-vacuity, end to end**: on `doc(para("ab"))` the deletion `replace(1, 2, Slice.empty)` goes through, meets
+    `EditResidual'`, and `editHistory_undo_bmp'` applies: undoing restores the document -/
+example : ∃ tr', (Tr.init nvDoc).runOps nvS [.replace 1 2 Slice.empty] = some tr' ∧
+    tr'.doc = .elem 0 [] [] [.elem 1 [] [] [.text [98] []]] ∧ tr'.undo nvS = .ok nvDoc := by
+  obtain ⟨tr1, h, hd⟩ := nv_run
+  refine ⟨tr1, h, hd, (editHistory_undo_bmp' nvS (by decide) (PM.Family.textLoop_of_B _ (by decide)) (by decide)
+    (by decide) (by decide) (by decide) (by decide) (by decide) (by decide) (by decide) nvDoc _ tr1 (by decide)
+    (by decide) (by decide) (by decide) h ?_).1⟩
+  simp only [OpsAll]
+  split
+  · rename_i tr2 h2
+    refine ⟨⟨by decide, rfl, Or.inl ⟨rfl, ?_⟩⟩, trivial⟩
+    rcases replaceOp_recorded nvS _ tr2 rfl 1 2 _ h2 with ⟨e, _⟩ | ⟨s, hr, e, _⟩
+    · rw [e]; trivial
+    · rw [e]
+      have hs := hr.symm.trans (rfl : _ = Except.ok (some (Step.replace 1 2 Slice.empty false)))
+      simp only [Except.ok.injEq, Option.some.injEq] at hs
+      subst hs
+      exact ⟨trivial, trivial⟩
+  · trivial
 end PM.C04
